@@ -450,6 +450,20 @@ func (s *APIServer) DecodeRawTransaction(ctx context.Context, in *pb.DecodeRawTr
 	return resp, nil
 }
 
+// releaseDraft gives back the coins reserved for a transaction that is not
+// handed out to the caller after all.
+func (s *APIServer) releaseDraft(mtxHex string) {
+	serializedTx, err := decodeHexStr(mtxHex)
+	if err != nil {
+		return
+	}
+	var mtx wire.MsgTx
+	if err = mtx.SetBytes(serializedTx, wire.Packet); err != nil {
+		return
+	}
+	s.massWallet.ClearUsedUTXOMark(&mtx)
+}
+
 func (s *APIServer) CreateRawTransaction(ctx context.Context, in *pb.CreateRawTransactionRequest) (*pb.CreateRawTransactionResponse, error) {
 	logging.CPrint(logging.INFO, "api: CreateRawTransaction", logging.LogFormat{"params": in})
 
@@ -526,6 +540,7 @@ func (s *APIServer) CreateRawTransaction(ctx context.Context, in *pb.CreateRawTr
 
 	err = checkTxFeeLimit(s.config, fee)
 	if err != nil {
+		s.releaseDraft(mtxHex)
 		return nil, err
 	}
 
@@ -582,6 +597,7 @@ func (s *APIServer) CreateStakingTransaction(ctx context.Context, in *pb.CreateS
 
 	err = checkTxFeeLimit(s.config, fee)
 	if err != nil {
+		s.releaseDraft(mtxHex)
 		return nil, err
 	}
 
@@ -657,6 +673,7 @@ func (s *APIServer) CreateBindingTransaction(ctx context.Context, in *pb.CreateB
 
 	err = checkTxFeeLimit(s.config, fee)
 	if err != nil {
+		s.releaseDraft(mtxHex)
 		return nil, err
 	}
 
@@ -766,6 +783,7 @@ func (s *APIServer) AutoCreateTransaction(ctx context.Context, in *pb.AutoCreate
 
 	err = checkTxFeeLimit(s.config, fee)
 	if err != nil {
+		s.releaseDraft(mtxHex)
 		return nil, err
 	}
 
